@@ -356,6 +356,7 @@ func runC12(c *Ctx) error {
 		return err
 	}
 	c.c12LateMethods()
+	c.c12LiteralForms()
 	c.c12CompositeFields()
 	c.c19HostStructs() // several host-built instances of one type keep their own fields (shared with C19)
 	return nil
@@ -364,6 +365,28 @@ func runC12(c *Ctx) error {
 // c12LateMethods: the type's method table grows (across every growth threshold) AFTER instances exist:
 // methods defined by later evaluations must be found on the old instances, on their aliases, on new
 // instances and on a type defined from the type
+// c12LiteralForms: every field of a literal holds the value the literal gives it: keyed literals in any order and
+// with omitted fields; a literal without field names either fills the fields in declaration order or is rejected -
+// it never yields a struct with other values
+func (c *Ctx) c12LiteralForms() {
+	for _, k := range []struct{ src, want string }{
+		{"type P struct {\n\tX int\n\tY string\n\tZ float64\n}\np := &P{Z: 1.5, X: 2}\nprintln(p.X, p.Y == \"\", p.Z/2)", "2 true 0.75\n"},
+		{"type P struct {\n\tX int\n\tY int\n}\np := &P{1, 2}\nprintln(p.X, p.Y)", "1 2\n"},
+		{"type P struct {\n\tX int\n\tY int\n}\nps := []*P{{3, 4}, {Y: 5}}\nprintln(ps[0].X, ps[0].Y, ps[1].X, ps[1].Y)", "3 4 0 5\n"},
+		{"type P struct {\n\tX int\n\tY int\n}\nfunc mk() *P {\n\treturn &P{7, 8}\n}\nprintln(mk().Y)", "8\n"},
+	} {
+		out, err := runScript(k.src)
+		c.Rep.Oracle["literal-forms"]++
+		if err != nil && strings.Contains(k.src, "{1, 2}") || err != nil && strings.Contains(k.src, "{3, 4}") || err != nil && strings.Contains(k.src, "{7, 8}") {
+			c.Rep.Count("literal-without-field-names-rejected")
+			continue
+		}
+		if err != nil || out != k.want {
+			c.Rep.Violate(Violation{Kind: "oracle", Cut: "literal-forms", Input: k.src, Impl: fmt.Sprintf("%q err=%v", out, err), Oracle: fmt.Sprintf("%q (or an error for a literal without field names)", k.want)})
+		}
+	}
+}
+
 func (c *Ctx) c12LateMethods() {
 	r := c.RNG
 	pairs := [][2]int{{0, 13}, {1, 14}, {3, 12}, {12, 13}, {5, 30}, {12, 60}, {13, 25}, {20, 120}, {24, 49}, {1, 200}}
